@@ -135,6 +135,7 @@ S["C14"] = dict(title="Errors stay in documented classes; 'not submitted' means 
   outside=["error texts","pending-connect state for blocking requests (C18 lockwrite harness)"])
 S["C11"] = dict(title="Every request completes and gets its own response", technique=TECH+"; arbitrary response bodies against registered requests; scripted interleaving through a guarded hook point for the ping slot", harnesses=[
     H("verifH_C11_correlation", "L11.b SUBACK/UNSUBACK with arbitrary identifier and codes against 1..2 registered requests at free identifiers: only the addressed one is answered, SubscribeError lists its own failed filters in order", reach=("granted","failed-filters","unsuback","count-mismatch","unsolicited-tolerated")),
+    H("verifH_C11_offlinerace", "bounded schedule exploration: the read routine's toOffline || a publish inside its slow write || a Subscribe being submitted (Write and Close are scheduling points): every request returns, no slot left", T({"preempt":0,"ping":0}), T({"preempt":1,"ping":0}, time_sec=2400, maxpaths=3000000), ("end",)),
     H("verifH_C11_pingslot", "L11.d Ping A's submission fails; read routine goes offline; Ping B installs its callback before A cleans up: B must still be answered", reach=()),
     H("verifH_C17_slots", "L11.a startTx/endTx"),
     H("verifH_C14_methods", "L11.c every Subscribe/Unsubscribe/Ping call returns under answer / broker failure / connection loss / close / quit", T({"wfaults":1,"storefaults":1}), T({"wfaults":2,"storefaults":1}), ("ok","classified","quit")),
